@@ -365,7 +365,7 @@ std::vector<Scen> Scenarios(int tip, bool big)
     } else {
         std::vector<std::vector<int>> locks{{}};
         for (int x : single) locks.push_back({x});
-        for (int x : single) if (x != 50 && x != INT_MAX) locks.push_back({50, x});
+        for (int x : {tip - 300, tip - 288, tip}) if (x >= 0 && x != 50) locks.push_back({50, x});
         locks.push_back({tip - 300, INT_MAX});
         for (int u = 0; u < 6; u++)
             for (const auto& l : locks) add(mk_auto(550, u, 0, -1, l));
@@ -414,7 +414,11 @@ int main(int argc, char** argv)
         while (std::getline(f, line)) if (line.rfind("scenario: ", 0) == 0) printf("replay: scenario '%s' (re-run the tier; scenarios are enumerated deterministically)\n", line.substr(10).c_str());
     }
     const std::vector<Layout> layouts = {{"small", false}, {"large", false}, {"shuffled", true}};
-    const std::set<int> TIPS = big ? std::set<int>{288, 289, 300, 400, 600, 700} : std::set<int>{400, 700};
+    // checkpoints per layout (the "large" layout has a file boundary at almost every height and gets all of them)
+    auto tips_of = [&](const Layout& L) {
+        if (big) return L.name == "large" ? std::set<int>{288, 289, 300, 400, 600, 700} : L.name == "small" ? std::set<int>{289, 400, 700} : std::set<int>{288, 300, 700};
+        return L.name == "large" ? std::set<int>{400, 700} : std::set<int>{700};
+    };
     const int MAXH = 700;
     std::map<std::string, uint64_t> counts;
     std::unordered_set<uint64_t> nontrivial;
@@ -437,6 +441,7 @@ int main(int argc, char** argv)
             if (!bm.m_opts.fast_prune || !bm.IsPruneMode() || bm.GetPruneTarget() != 550 * MIB) { printf("HARNESS-ERROR C19 -fastprune/-prune did not reach the block manager\n"); return 2; }
         }
         std::set<int> done;
+        const std::set<int> TIPS = tips_of(L);
         auto checkpoint = [&]() {
             const int tip = node.height();
             if (!TIPS.count(tip) || done.count(tip) || cut) return;
@@ -516,8 +521,8 @@ int main(int argc, char** argv)
     for (auto& [k, v] : counts) E.set(k, v);
     E.set_str("layouts", layout_info);
     for (auto& s : samples) E.sample(s);
-    E.rule = std::string("3 block-file layouts (64 KiB files: ~40 small blocks per file / 1-3 large blocks per file / reversed delivery in groups of 6 with stale siblings) x tips ") + (big ? "{288,289,300,400,600,700}" : "{400,700}") + " x scenarios: " +
-             (big ? "automatic pass at target 550 MiB x recorded usage {0.4T,T-20MiB,T-8MiB,T+1MiB,1.3T,3T} x prune-lock sets {none, each of 0,1,12,50,tip-300,tip-289,tip-288,tip-277,tip,INT_MAX, pairs with 50} (+ snapshot base {110,299} x 3 lock sets, headers 3 ahead, targets 600/700); manual height {1,2,50,tip/2,tip-289,tip-288,tip-287,tip,tip+10} x {no lock, each single lock} (+ snapshot bases); reorg depth {1,2,3,15} x lock {tip..tip-3,tip-14..tip-16,50,INT_MAX}"
+    E.rule = std::string("3 block-file layouts (64 KiB files: ~40 small blocks per file / 1-3 large blocks per file / reversed delivery in groups of 6 with stale siblings) x tips ") + (big ? "{288,289,300,400,600,700} (large) / {289,400,700} (small) / {288,300,700} (shuffled)" : "{400,700} (large) / {700}") + " x scenarios: " +
+             (big ? "automatic pass at target 550 MiB x recorded usage {0.4T,T-20MiB,T-8MiB,T+1MiB,1.3T,3T} x prune-lock sets {none, each of 0,1,12,50,tip-300,tip-289,tip-288,tip-277,tip,INT_MAX, 3 pairs with 50} (+ snapshot base {110,299} x 3 lock sets, headers 3 ahead, targets 600/700); manual height {1,2,50,tip/2,tip-289,tip-288,tip-287,tip,tip+10} x {no lock, each single lock} (+ snapshot bases); reorg depth {1,2,3,15} x lock {tip..tip-3,tip-14..tip-16,50,INT_MAX}"
                   : "automatic pass at 550 MiB x usage {0.4T,T+1MiB,3T} x 5 lock sets x snapshot base {none,299} (+3 extra); manual height {1,tip-288,tip} x 3 lock sets x snapshot {none,110} (+2 extra); reorg depth {3,15} x lock {tip,tip-14,50}") +
              ", each followed (reorg) by 300 blocks of growth and a manual prune. Every scenario runs in a fork of the node at that tip; every 4th one and all reorgs also check the files on disk. distinct_nontrivial = distinct scenarios in which files were removed or a lock/snapshot base was the binding constraint";
     E.assume("block-file sizes are scaled in metadata only (CBlockFileInfo nSize/nUndoSize) to reach usage levels around 550-700 MiB; the unvalidated snapshot chainstate is emulated by setting the chainstate's snapshot base hash and assumeutxo state (regtest's assumeutxo commitments belong to a different chain); the node is in initial block download (tip older than a day under mock time)");
